@@ -119,13 +119,14 @@ qb_ringbuffer_t *
 qb_rb_open(const char *name, size_t size, uint32_t flags,
 	   size_t shared_user_data_size)
 {
-	return qb_rb_open_2(name, size, flags, shared_user_data_size, NULL);
+	return qb_rb_open_2(name, size, flags, shared_user_data_size, NULL, 0600);
 }
 
 qb_ringbuffer_t *
 qb_rb_open_2(const char *name, size_t size, uint32_t flags,
 	     size_t shared_user_data_size,
-	     struct qb_rb_notifier *notifiers)
+	     struct qb_rb_notifier *notifiers,
+	     mode_t create_mode)
 {
 	struct qb_ringbuffer_s *rb;
 	size_t real_size;
@@ -168,8 +169,8 @@ qb_rb_open_2(const char *name, size_t size, uint32_t flags,
 	 * Create a shared_hdr memory segment for the header.
 	 */
 	snprintf(filename, PATH_MAX, "%s-header", name);
-	fd_hdr = qb_sys_mmap_file_open(path, filename,
-				       shared_size, file_flags);
+	fd_hdr = qb_sys_mmap_file_open_2(path, filename,
+					 shared_size, file_flags, create_mode);
 	if (fd_hdr < 0) {
 		error = fd_hdr;
 		qb_util_log(LOG_ERR, "couldn't create file for mmap");
@@ -219,9 +220,10 @@ qb_rb_open_2(const char *name, size_t size, uint32_t flags,
 	 */
 	if (flags & QB_RB_FLAG_CREATE) {
 		snprintf(filename, PATH_MAX, "%s-data", name);
-		fd_data = qb_sys_mmap_file_open(path,
-						filename,
-						real_size, file_flags);
+		fd_data = qb_sys_mmap_file_open_2(path,
+						  filename,
+						  real_size, file_flags,
+						  create_mode);
 		(void)strlcpy(rb->shared_hdr->data_path, path, PATH_MAX);
 	} else {
 		fd_data = qb_sys_mmap_file_open(path,
